@@ -22,15 +22,17 @@ import (
 // *dependency* the other node of the edge; Pred is the map keyed by the
 // dependent's id that collects dependency ids, Succ its inverse.
 type GraphRoles struct {
-	AddEdge         *ssa.Function // the edge writer
-	EdgeLoop        *ssa.Function // the function ranging over Step.Depends
-	DepLoop         *ir.Loop      // that loop
-	Owner           ssa.Value     // in EdgeLoop: the node whose Depends is read
-	Setup           *ssa.Function // the function that refuses the graph when the cycle test is positive
-	HasCycle        *ssa.Function // the cycle test: the boolean function whose positive answer makes Setup return an error
-	Reset           *ssa.Function // the retry reset: the construction-phase function that zeroes node states
-	Pred            string        // adjacency[dependent] = its dependencies   (today: "to")
-	Succ            string        // adjacency[dependency] = its dependents    (today: "from")
+	AddEdge         *ssa.Function   // the edge writer
+	EdgeLoop        *ssa.Function   // the function ranging over Step.Depends
+	DepLoop         *ir.Loop        // that loop
+	Owner           ssa.Value       // in EdgeLoop: the node whose Depends is read
+	Setup           *ssa.Function   // the function that refuses the graph when the cycle test is positive
+	HasCycle        *ssa.Function   // the cycle test: the boolean function whose positive answer makes Setup return an error
+	AdjOwners       map[string]bool // named structs of the package (other than the graph) that hold the adjacency maps
+	CycleNegated    bool            // the test answers "acyclic": its NEGATIVE answer refuses the graph (`if !edges.acyclic() { return err }`)
+	Reset           *ssa.Function   // the retry reset: the construction-phase function that zeroes node states
+	Pred            string          // adjacency[dependent] = its dependencies   (today: "to")
+	Succ            string          // adjacency[dependency] = its dependents    (today: "from")
 	AllNodes        []string
 	Updates         []EdgeUpdate // the adjacency updates of the edge writer
 	why             string       // what could not be resolved
@@ -130,6 +132,7 @@ func (e *Env) graphRoles() *GraphRoles {
 						if b, ok := sl.Elem().Underlying().(*types.Basic); ok && b.Info()&types.IsInteger != 0 {
 							adj[inner.Field(k).Name()] = true
 							adjOwner[nt.Obj().Name()] = true
+							g.AdjOwners = adjOwner
 						}
 					}
 				}
@@ -365,9 +368,12 @@ func (e *Env) graphRoles() *GraphRoles {
 			for _, l := range e.DCSBlock(b) {
 				// the positive answer: `hasCycle()`, or a witness that is not nil (`findCycle() != nil`)
 				var subj ssa.Value
+				negated := false
 				switch {
 				case l.Kind == "val" && l.Pol:
 					subj = l.V
+				case l.Kind == "val" && !l.Pol:
+					subj, negated = l.V, true // `if !acyclic() { return errCycle }`
 				case l.Kind == "cmp" && l.Op == token.NEQ && ir.IsNilConst(l.Y):
 					subj = l.X
 				default:
@@ -381,7 +387,11 @@ func (e *Env) graphRoles() *GraphRoles {
 					if rtp := h.Signature.Results().At(0).Type(); l.Kind == "val" && rtp.String() != "bool" || l.Kind == "cmp" && (!nilable(rtp) || ir.IsErrorType(rtp)) {
 						continue
 					}
-					g.HasCycle = h
+					if negated && h.Signature.Results().At(0).Type().String() != "bool" {
+						continue
+					}
+					g.HasCycle, g.CycleNegated = h, negated
+					cycleTestNegated = negated
 					// a function with the error as its only result is the refusing setup; a
 					// constructor that asks the cycle test itself leaves Setup unset
 					if len(rt.Results) == 1 {
@@ -1589,11 +1599,17 @@ func nilable(t types.Type) bool {
 	return false
 }
 
+// cycleTestNegated mirrors GraphRoles.CycleNegated for the env-less cycleNeg.
+var cycleTestNegated = false
+
 // cycleNeg: the conjunction says the cycle test answered "no cycle": `!hasCycle()`,
 // or - for a test that hands back a witness - `findCycle() == nil`.
 func cycleNeg(lits []ir.NLit, pred func(ssa.Value) bool) bool {
-	if HasVal(lits, pred, false) {
+	if HasVal(lits, pred, cycleTestNegated) {
 		return true
+	}
+	if cycleTestNegated {
+		return false
 	}
 	for _, l := range lits {
 		if l.Kind == "cmp" && l.Op == token.EQL && ir.IsNilConst(l.Y) && pred(ir.Resolve(l.X)) {
